@@ -1950,7 +1950,9 @@ func ruleReturnByRecordedIndex(c *Ctx, rule string) {
 		c.check(ok, rule, "Build:returned-result-is-the-recorded-one", L.pos(st.Pos()), "the injector returns the root provider's result at the index recorded for the requested type", why)
 	}
 	c.floor(rule, "stores of the injector's returned parameter", n, 1)
-	m := 0
+	// an index left at its zero value (a literal without the field) is the explicit 0: the obligation that cannot be met
+	// by leaving stores out is that some store records the supplier map's index
+	m, fromSupplier := 0, false
 	for _, st := range storesToField(withClosures(ng), "internal/kessoku.returnVal.returnIndex") {
 		m++
 		s := newSym(L, map[string]bool{})
@@ -1958,13 +1960,16 @@ func ruleReturnByRecordedIndex(c *Ctx, rule string) {
 		ts := s.eval(st.Val)
 		ok := true
 		for _, t := range ts {
-			if t != "0" && !strings.Contains(t, "fnProvider.returnIndex(") {
+			if strings.Contains(t, "fnProvider.returnIndex(") {
+				fromSupplier = true
+			} else if t != "0" {
 				ok = false
 			}
 		}
 		c.check(ok, rule, "NewGraph:recorded-return-index", L.pos(st.Pos()), "the recorded index is the supplier map's result index for the requested type (0 for an argument)", strings.Join(ts, " | "))
 	}
-	c.floor(rule, "stores of the recorded return index", m, 2)
+	c.check(fromSupplier, rule, "NewGraph:recorded-return-index-from-supplier-table", L.pos(ng.Pos()), "the supplier map's result index is what NewGraph records for a returned provider result", fmt.Sprintf("%d stores of returnVal.returnIndex", m))
+	c.floor(rule, "stores of the recorded return index", m, 1)
 }
 
 // ruleEveryStmtEmittedInPlace: generateStmts (and a chain's Stmt) emits each element of its statement list through that
@@ -2188,6 +2193,41 @@ func ruleWaitCheckedWhenFallible(c *Ctx, rule string) {
 						checked = true
 					}
 				}
+			}
+			// one exit returning a statement chosen before (`var w ast.Stmt; if ... { w = checked } else { w = discarding }`):
+			// each way into the join is one form, decided at the end of the block it comes from
+			if ph, isPhi := resolve(elems[0]).(*ssa.Phi); isPhi && len(elems) == 1 {
+				for i, e := range ph.Edges {
+					n++
+					al, isA := resolve(e).(*ssa.Alloc)
+					if !isA {
+						c.undecided(rule, "generateAsyncWaitStatements:returned-list", "a way into the returned statement is not a literal: "+describe(e))
+						continue
+					}
+					if nm, _ := isAstNodeType(al.Type()); nm == "IfStmt" {
+						continue
+					}
+					pred := ph.Block().Preds[i]
+					rows, ids, err := truthTable(L, fn.Blocks[0], pred.Instrs[len(pred.Instrs)-1], nil)
+					if err != "" {
+						c.undecided(rule, "generateAsyncWaitStatements:table", err)
+						continue
+					}
+					ire, bad := "", ""
+					for _, id := range ids {
+						if strings.Contains(id, "Injector.IsReturnError(") {
+							ire = id
+						}
+					}
+					for _, row := range rows {
+						if row.reached && ire != "" && row.atoms[ire].b {
+							bad = rowString(row, ids)
+						}
+					}
+					c.check(ire != "" && bad == "", rule, "generateAsyncWaitStatements:discarding-form-only-without-error-result", L.pos(al.Pos()),
+						"the form that discards the result of eg.Wait() is emitted only when the injector has no error result", "counterexample: "+bad)
+				}
+				continue
 			}
 		} else {
 			c.undecided(rule, "generateAsyncWaitStatements:returned-list", "the returned statement list is not a literal: "+describe(r.Results[0]))
@@ -4945,6 +4985,134 @@ func ruleReadinessByFirstNode(c *Ctx, rule string) {
 	}
 }
 
+// ruleEmittedPoolIsMarkedScheduled: when buildStmts emits the statements of a pool (a call of buildPoolStmtsSimple with that
+// pool), the nodes it then records in the scheduled set are the nodes of THAT pool. Recording another pool's nodes (a helper
+// called with the wrong pool) leaves the dependants of the emitted pool unready for ever: their statements are dropped
+// without an error while their channels are still declared and waited on, so the injector blocks. Decided by identity of
+// the pool value at the emission and at a recording that can follow it (same SSA value, or the same element of the same
+// slice); a recording through a helper or closure counts at the helper's call sites with the pool handed in.
+func ruleEmittedPoolIsMarkedScheduled(c *Ctx, rule string) {
+	L := c.L
+	bs := genFn(c, rule, "(*Graph).buildStmts")
+	emit := resolveRole(c, genPkg, "(*Graph).buildPoolStmtsSimple")
+	if bs == nil || emit == nil {
+		return
+	}
+	fam := family(L, bs)
+	isNodeSlice := func(t types.Type) bool { return strings.HasSuffix(t.String(), "[]*"+genPkg+".node") }
+	calleeFn := func(cs callSite) *ssa.Function {
+		if f := cs.common.StaticCallee(); f != nil {
+			return f
+		}
+		if mc, ok := resolve(cs.common.Value).(*ssa.MakeClosure); ok {
+			return mc.Fn.(*ssa.Function)
+		}
+		return nil
+	}
+	type site struct {
+		at   ssa.Instruction
+		pool ssa.Value
+	}
+	var marks []site
+	var addMark func(at ssa.Instruction, pool ssa.Value, d int)
+	addMark = func(at ssa.Instruction, pool ssa.Value, d int) {
+		pool = resolve(pool)
+		if p, ok := pool.(*ssa.Parameter); ok && d < 3 && p.Parent() != bs {
+			h := p.Parent()
+			idx := -1
+			for i, q := range h.Params {
+				if q == p {
+					idx = i
+				}
+			}
+			for _, f := range fam {
+				for _, cs := range callsIn(f) {
+					if calleeFn(cs) == h && idx >= 0 && idx < len(cs.common.Args) {
+						addMark(cs.instr, cs.common.Args[idx], d+1)
+					}
+				}
+			}
+			return
+		}
+		marks = append(marks, site{at, pool})
+	}
+	for _, f := range fam {
+		if f == emit {
+			continue
+		}
+		for _, b := range f.Blocks {
+			for _, in := range b.Instrs {
+				mu, ok := in.(*ssa.MapUpdate)
+				if !ok || !strings.Contains(mu.Map.Type().String(), "map[*"+genPkg+".node]struct{}") {
+					continue
+				}
+				ld, ok := resolve(mu.Key).(*ssa.UnOp)
+				if !ok || ld.Op != token.MUL {
+					continue
+				}
+				ia, ok := ld.X.(*ssa.IndexAddr)
+				if !ok || !isNodeSlice(ia.X.Type()) {
+					continue
+				}
+				addMark(mu, ia.X, 0)
+			}
+		}
+	}
+	samePool := func(a, b ssa.Value) bool {
+		a, b = resolve(a), resolve(b)
+		if a == b {
+			return true
+		}
+		la, okA := a.(*ssa.UnOp)
+		lb, okB := b.(*ssa.UnOp)
+		if !okA || !okB || la.Op != token.MUL || lb.Op != token.MUL {
+			return false
+		}
+		ia, okA := la.X.(*ssa.IndexAddr)
+		ib, okB := lb.X.(*ssa.IndexAddr)
+		return okA && okB && resolve(ia.X) == resolve(ib.X) && resolve(ia.Index) == resolve(ib.Index)
+	}
+	if len(marks) == 0 {
+		c.ok(rule, "buildStmts: no recording of a pool's nodes in the scheduled set recognised; rule not applied", "shape not recognised")
+		return
+	}
+	n := 0
+	for _, f := range fam {
+		if f == emit {
+			continue
+		}
+		for _, cs := range callsIn(f) {
+			if !calleeIsFn2(cs, emit) {
+				continue
+			}
+			var pool ssa.Value
+			for _, a := range cs.common.Args {
+				if isNodeSlice(a.Type()) {
+					pool = a
+				}
+			}
+			if pool == nil {
+				continue
+			}
+			n++
+			ok, why := false, "no recording of the emitted pool's nodes can follow the emission; recorded instead: "
+			for _, m := range marks {
+				if m.at.Parent() != f {
+					continue
+				}
+				if samePool(m.pool, pool) && (reachableAfter(cs.instr, m.at) || instrDominates(m.at, cs.instr)) {
+					ok, why = true, "the nodes of "+describe(resolve(pool))+" are recorded at "+L.pos(m.at.Pos())
+					break
+				}
+				why += describe(m.pool) + " at " + L.pos(m.at.Pos()) + "; "
+			}
+			c.check(ok, rule, fnName(f)+":emitted-pool-recorded-as-scheduled", L.pos(cs.instr.Pos()),
+				"the nodes recorded as scheduled after a pool's statements were emitted are the nodes of that pool (otherwise its dependants never become ready and are dropped silently, their channels still waited on)", why)
+		}
+	}
+	c.floor(rule, "emissions of a pool in buildStmts", n, 1)
+}
+
 // readinessKeyOfFirstNode: v is an element of reverseEdges[p[0]] for some pool p.
 func readinessKeyOfFirstNode(L *Loaded, v ssa.Value) bool {
 	isFirst := func(k ssa.Value) bool {
@@ -5585,6 +5753,7 @@ func ruleMatchingVisitedFreshPerRoot(c *Ctx, rule string) {
 			}
 		}
 	}
+	isSearch := func(cc *ssa.CallCommon) bool { return aug != nil && cc.StaticCallee() == aug }
 	if aug == nil {
 		// the matching kept in a struct: the visited set is a []bool field of the search's receiver, written by the method
 		// that starts a search (m.used = make(...); return m.search(u)) and that method is what the loop over the roots calls
@@ -5622,12 +5791,48 @@ func ruleMatchingVisitedFreshPerRoot(c *Ctx, rule string) {
 				}
 			}
 		}
-		c.undecided(rule, "findAugmentingPath", "no self-recursive search taking a visited set is called from findMaximumAntichainSize")
-		return
+		// the search as a recursive closure of findMaximumAntichainSize (`var augment func(int) bool; augment = func...`)
+		// with the visited set in a captured variable: every call from the loop over the roots follows a store of a
+		// freshly made slice into that variable, inside the loop
+		if fcell, ucell, g := recursiveClosureSearch(fn); g != nil {
+			isSearch = func(cc *ssa.CallCommon) bool {
+				u, ok := cc.Value.(*ssa.UnOp)
+				return ok && u.Op == token.MUL && allocOf(u.X) == fcell
+			}
+			nc := 0
+			for _, cs := range callsIn(fn) {
+				if !isSearch(cs.common) {
+					continue
+				}
+				nc++
+				hdr := innermost(cs.instr.Block())
+				ok, why := false, "no store of a fresh slice into the captured visited set on the way to the call"
+				if hdr == nil {
+					ok, why = true, "the search is not in a loop"
+				}
+				for _, b := range fn.Blocks {
+					for _, in := range b.Instrs {
+						st, isSt := in.(*ssa.Store)
+						if !isSt || allocOf(st.Addr) != ucell || hdr == nil {
+							continue
+						}
+						if _, fresh := resolve(st.Val).(*ssa.MakeSlice); fresh && b != hdr && hdr.Dominates(b) && reachable(b, hdr) && instrDominates(st, cs.instr) {
+							ok, why = true, fmt.Sprintf("the captured set is renewed in block %d of the loop with header %d, before the call", b.Index, hdr.Index)
+						}
+					}
+				}
+				c.check(ok, rule, fnName(fn)+":visited-set-fresh-per-root", L.pos(cs.instr.Pos()), "every augmenting-path search starts with an empty visited set", why)
+			}
+			c.floor(rule, "outer calls of the augmenting-path closure", nc, 1)
+			c.seen(fnName(g))
+		} else {
+			c.undecided(rule, "findAugmentingPath", "no self-recursive search taking a visited set is called from findMaximumAntichainSize")
+			return
+		}
 	}
 	n := 0
 	for _, f := range family(L, fn) {
-		if f == aug {
+		if f == aug || aug == nil {
 			continue
 		}
 		for _, cs := range callsIn(f) {
@@ -5660,7 +5865,9 @@ func ruleMatchingVisitedFreshPerRoot(c *Ctx, rule string) {
 			}
 		}
 	}
-	c.floor(rule, "outer calls of findAugmentingPath", n, 1)
+	if aug != nil {
+		c.floor(rule, "outer calls of findAugmentingPath", n, 1)
+	}
 	// the lane count is the number of nodes minus the number of successful searches: every decrement of the counter sits
 	// directly under the result of a search from a root (counting matched entries of the adjacency lists afterwards counts
 	// a double edge - two arguments fed by one provider - twice)
@@ -5680,7 +5887,7 @@ func ruleMatchingVisitedFreshPerRoot(c *Ctx, rule string) {
 			nDec++
 			okDec, why := false, "the decrement is not under the result of a search"
 			for _, iff := range controllingIfs(bo) {
-				if call, isCall := iff.Cond.(*ssa.Call); isCall && call.Common().StaticCallee() == aug && (iff.Block().Succs[0] == b || iff.Block().Succs[0].Dominates(b)) {
+				if call, isCall := iff.Cond.(*ssa.Call); isCall && isSearch(call.Common()) && (iff.Block().Succs[0] == b || iff.Block().Succs[0].Dominates(b)) {
 					okDec, why = true, "one decrement per successful search"
 				} else {
 					s := newSym(L, map[string]bool{})
@@ -5695,6 +5902,51 @@ func ruleMatchingVisitedFreshPerRoot(c *Ctx, rule string) {
 	if nDec == 0 {
 		c.ok(rule, "findMaximumAntichainSize: no counter decremented per search; decrement rule not applied", "shape not recognised")
 	}
+}
+
+// recursiveClosureSearch: a closure of fn that is stored into a local variable, calls itself through that variable and captures
+// a []bool variable. Returns the cell of the function variable, the cell of the captured set and the closure's function.
+func recursiveClosureSearch(fn *ssa.Function) (fcell, ucell *ssa.Alloc, g *ssa.Function) {
+	for _, b := range fn.Blocks {
+		for _, in := range b.Instrs {
+			mc, ok := in.(*ssa.MakeClosure)
+			if !ok || mc.Referrers() == nil {
+				continue
+			}
+			cf := mc.Fn.(*ssa.Function)
+			var cell *ssa.Alloc
+			for _, r := range *mc.Referrers() {
+				if st, isSt := r.(*ssa.Store); isSt && st.Val == ssa.Value(mc) {
+					cell = allocOf(st.Addr)
+				}
+			}
+			if cell == nil {
+				continue
+			}
+			self, set := -1, -1
+			for i, bnd := range mc.Bindings {
+				if allocOf(bnd) == cell {
+					self = i
+				}
+				if pt, isP := bnd.Type().Underlying().(*types.Pointer); isP && pt.Elem().String() == "[]bool" {
+					set = i
+				}
+			}
+			if self < 0 || set < 0 {
+				continue
+			}
+			rec := false
+			for _, cs := range callsIn(cf) {
+				if u, isU := cs.common.Value.(*ssa.UnOp); isU && u.Op == token.MUL && u.X == ssa.Value(cf.FreeVars[self]) {
+					rec = true
+				}
+			}
+			if rec {
+				return cell, allocOf(mc.Bindings[set]), cf
+			}
+		}
+	}
+	return nil, nil, nil
 }
 
 // ruleContextInjectedOnEveryPath: when a scheduled provider is Async, injectContextArg leaves the injector with a context
